@@ -5,6 +5,7 @@ from core import enc, q, user_fn_spec
 from gen import SeqGen, canonical_names, basename
 
 ID = "C20"
+HEAP_SUMMARY = True      # end every program with the reference-level observation (BB.Model.Heap vs id() walk)
 LEAN_MODULE = "BB.Properties.C20"
 QUICK_N = 240
 THOROUGH_N = 5000
